@@ -99,6 +99,8 @@ int SimulateEbpf::get_register(const char *s)
   if (*s != 'r' && *s != 'R') { return -1; }
   s++;
 
+  if (s[0] == 0) { return -1; }
+
   if (s[1] == 0)
   {
     if (s[0] >= '0' && s[0] <= '9') { return s[0] - '0'; }
